@@ -242,6 +242,13 @@ def run(ctx):
             return {nm: [dict(m, fs=[it if isinstance(it, str) else recur(it, path + (nm,)) for it in m["fs"]]) for m in modes]}
 
         one(recur(cd), "name-recurs-on-a-path", {})
+    # branching fractions given as text (a range, an upper limit, an empty text, something that merely looks like a number): the
+    # edge carries that text, and Graphviz accepts the output
+    for bf_text in ["0.0389-0.0395", "", "1.2.3", "-", ".", "1e-05", "<0.01", "~1e-3", "0.5", "1-", "seen", "3.5 %", "12", "-.5", "2..", "--1"]:
+        cd = {"D0": [{"bf": bf_text, "fs": ["K-", {"pi0": [{"bf": bf_text, "fs": ["gamma", "gamma"], "model": "", "model_params": ""}]}], "model": "", "model_params": ""},
+                     {"bf": 0.5, "fs": ["K-", "pi+"], "model": "", "model_params": ""}]}
+        dot_budget[0] += 1
+        one(cd, "bf-as-text", {})
     # wide and deep chains: every line with two or three decaying daughters, seven levels (127 and more decay lines in one graph)
     def bushy(name, depth, width):
         if depth == 0:
